@@ -100,8 +100,15 @@ def r2(ctx, cfg):
                 conds = q.dominating_conditions(P, f, bid)
                 decoded = any(c[0] == "variant_in" and c[2] == ("Ok",) and peel(c[1])[0] == "call" and peel(c[1])[1] == "bech32::primitives::decode::CheckedHrpstring::new"
                               and is_param(peel(c[1])[2][0], "input") for e, c in conds)
-                pfx = q.has_cond(conds, "eq", pol=True, arg_pred=lambda a: any(_self_prefix(x) for x in a) and any(
-                    contains(x, lambda y: y[0] == "call" and y[1].endswith("CheckedHrpstring::hrp")) for x in a))
+                def _is_hrp(x):
+                    x = peel(x)
+                    return x[0] == "call" and x[1].endswith("CheckedHrpstring::hrp")
+
+                def _is_own_prefix(x):
+                    x = peel(x)
+                    return x[0] == "field" and x[2] == "prefix" and is_param(x[1], "self")
+                # the comparison is between the decoded hrp itself and self.prefix itself (not lengths, hashes, ...)
+                pfx = q.has_cond(conds, "eq", pol=True, arg_pred=lambda a: len(a) == 2 and any(_is_own_prefix(x) for x in a) and any(_is_hrp(x) for x in a))
                 ctx.ob(R, key, "Ok-only-for-decoded-input-with-own-prefix", decoded and pfx,
                        "Ok(..) is returned without (checked decode under T succeeded) && (hrp == self.prefix)", fn=f, line=st["line"],
                        sample="dominated by CheckedHrpstring::new::<T>(input) is Ok and hrp == self.prefix")
